@@ -58,7 +58,7 @@ def run(c):
         "saveTargetInfo failures after a successful body are modelled (Facts.saveOk) but not injected by the harness",
     ]
     c.coverage["rule"] = (
-        "line writer: every string over {a,\\n} up to length 6 (9 thorough) in every chunking, plus an empty chunk in every 7th case; "
+        "line writer: every string over {a,\\n} up to length 6 (10 thorough) in every chunking, plus an empty chunk in every 7th case; "
         "every sequence of up to 4 (5) calls over six chunks and Flush (writer reused after Flush); seeded random long outputs over 8 symbols. "
         "events: seeded random projects on disk (2-8 targets in 1-2 packages, random DAG, chunks with/without trailing newline, failing bodies, "
         "target-level always, sources, sometimes a missing dependency, a dependency cycle, a source whose up-to-date check fails), "
